@@ -46,7 +46,9 @@ CLAIMED = {
                  "written to an unsigned type become 0; (c) stir::round(float) is within half a unit for |x| < 2^23. (d) exam information, reader side: the radionuclide block of InterfileHeader::post_processing (statement kernel; Radionuclide "
                  "constructor = its member-initialiser list under contract, data base by assumed contract, strings as ids) gives, for a name the data base "
                  "does not know, a nuclide whose half life / branching ratio / name are the header's radionuclide_half_life[0] / "
-                 "radionuclide_branching_ratio[0] / name, and the data base's entry otherwise. Not decided: the read-back accuracy "
+                 "radionuclide_branching_ratio[0] / name, and the data base's entry otherwise; the writer (write_interfile_radionuclide_info) emits name, half "
+                 "life and branching ratio each under its own key, the reader's key table binds each key to the member of its name, and (lemma, parser "
+                 "trusted) a nuclide unknown to the data base survives the round trip. Not decided: the read-back accuracy "
                  "'within half a quantisation step' (needs the IEEE error bound of the float division: solver time-out, argued in DESIGN.md), voxel "
                  "positions, header key parsing / writing and all other exam information, byte order, truncated files, dynamic/parametric containers."),
         "note": ("trusted: cbmc 6.11.0 MiniSat with its IEEE-754 float model and its floor() model; std::max_element/min_element deliver the extreme values; "
